@@ -168,6 +168,7 @@ def run_case(case, ctx):
             # directed: a tie and an all-NaN pixel in a non-first block
             costs[150 % rows, 120 % cols, :] = 1.0
             costs[(150 % rows) - 1, 120 % cols, :] = np.nan
+            lo[150 % rows, 120 % cols], hi[150 % rows, 120 % cols] = 0, nd - 1
         inv = INVALID[int(rng.integers(0, len(INVALID)))]
         inv_val = {"nan": np.nan, "inside": float(disps[nd // 2])}.get(inv, inv)
         conf = None
